@@ -148,6 +148,7 @@ VerboseIrrelevant(fs, dirs, i) == Start(fs, dirs, i) = Start(fs, dirs, [i EXCEPT
 \*       "C"  {% component "n" ... %}              old inline tag OR new opener - the same text
 \*       "E"  {% endcomponent %}                   new end tag
 \*       "S"  {% component "n" ... / %}            new self-closing tag
+\*       "B"  the whole content of a file that is not text (an image beside the components)
 \*   v = presentation of the tag: 1 canonical, 2 with arguments, 3 name in single quotes [U4],
 \*       4 no blanks inside the delimiters, 5 spread over several lines with arguments
 \*   raw = TRUE: byte-for-byte the text the user wrote; FALSE: a tag (re)written by the command, of
